@@ -455,13 +455,13 @@ func Serve(opts Options) error {
 
 	s.qdb = qdb
 	s.qidx = qidx
-	if err := s.migrateAOF(); err != nil {
-		return err
-	}
 	if opts.AppendOnly {
 		if _, err := os.Stat(opts.AppendFileName); os.IsNotExist(err) {
 			// An AOFSHRINK that was interrupted between its two renames leaves
 			// no live file; the complete log is still there as the backup.
+			// This comes before the migration of a legacy log, which would
+			// otherwise take the missing file as its cue to bring back the
+			// old "aof" file that a migrated directory still holds.
 			if _, err := os.Stat(opts.AppendFileName + "-bak"); err == nil {
 				if err := os.Rename(opts.AppendFileName+"-bak",
 					opts.AppendFileName); err != nil {
@@ -469,6 +469,11 @@ func Serve(opts Options) error {
 				}
 			}
 		}
+	}
+	if err := s.migrateAOF(); err != nil {
+		return err
+	}
+	if opts.AppendOnly {
 		f, err := os.OpenFile(opts.AppendFileName, os.O_CREATE|os.O_RDWR, 0600)
 		if err != nil {
 			return err
